@@ -9,9 +9,15 @@ What is proved (for all strings / names, no bound):
     generator-internal names regenerated from the code the library generates for the battery on every run);
   * every function generated for the battery compiles and refers only to names it binds, closes over, or finds in
     its globals / builtins (`C15_battery_well_scoped` — a statement about the regenerated table, i.e. about the
-    battery; the statement for every class is the renaming oracle's job, see DESIGN.md).
+    battery; the statement for every class is the renaming oracle's job, see DESIGN.md);
+  * for the generator of the dump function (`dump_func_for_dataclass`, modelled as the *text* it writes —
+    `DW/Model/GenDump.lean`, compared byte for byte with the library's output on every run) the statement IS proved for
+    every class: the body generated for any field list, any key / alias / path text, any skip conditions, tag, tag key
+    and Meta switches reads only names that are bound when they are read (`C15_gendump_well_scoped`); the closure rule
+    the library used before repair b9cb15d does not have this property (`C15_gendump_old_rule_unbound`).
 -/
 import DW.Lemmas.Names
+import DW.Lemmas.GenDump
 import DW.Generated.Tables
 
 namespace DW.Props.C15
@@ -163,5 +169,49 @@ theorem C15_derived_shapes :
        "_load_<U>_named_tuple_<U>", "_load_<U>_pattern_date_<hash>", "_load_<U>_pattern_datetime_<hash>",
        "_load_<U>_pattern_time_<hash>", "_load_<U>_typed_dict_<U>", "_load_<U>_union_<i>_<i>", "_parser_<u>", "_tp_<u>"] := by
   decide
+
+/-! ### the generator of `cls_asdict`, for every class -/
+
+open DW.GenDump in
+/-- **C15 (the dump-function generator, every class).**  Whatever the class looks like — any number of fields in any
+order, with or without defaults, dumped under any key text, at any JSON path, not at all, or as the catch-all; any
+per-field / Meta skip conditions with any comparison values; any tag and tag-key text; `_pre_dict`; any `isprintable` —
+the body `dump_func_for_dataclass` writes for `cls_asdict` passes Python's scoping rule: every name it reads is a
+parameter or a local that is definitely assigned on every path before the read, or is held by the function's closure
+(the generator's `_locals`), or is the builtin `Ellipsis`; and no closure name is shadowed by a local. -/
+theorem C15_gendump_well_scoped (printable : Char → Bool) (g : GIn) : wellScoped printable g = true :=
+  wellScoped_all printable g
+
+open DW.GenDump in
+/-- the checker's reading rule is Python's whenever only assigned names are local — which `genScope` guarantees by
+construction (its locals are the parameters and every name the body writes) -/
+theorem C15_gendump_rule_is_pythons (sc : Scope) (asg : List S) (n : S) (h : ∀ x ∈ asg, x ∈ sc.locals) :
+    sc.readOk asg n = sc.readOkPy asg n := readOk_eq_py sc asg n h
+
+open DW.GenDump in
+/-- the class that exposed the defect: a defaulted CatchAll field under `Meta.skip_defaults_if` -/
+def gendumpWitness : GIn :=
+  { fields := [{ name := "x".toList, hasDefault := true, key := .key "x".toList },
+               { name := "extra".toList, hasDefault := true, key := .null, isCatchAll := true }],
+    skipDefaultsIf := some { op := .is_, val := .none } }
+
+open DW.GenDump in
+/-- **The proof found a defect.**  With the closure rule of the library before repair b9cb15d (`_default_<i>` bound only
+when there is no `Meta.skip_defaults_if`) the function generated for the witness reads `_default_1` without binding it
+(every `to_dict()` raised NameError — replayed on the implementation by `findings/catchall-default-unbound-under-skip-defaults-if.py`);
+with the repaired rule it is well scoped. -/
+theorem C15_gendump_old_rule_unbound :
+    wellScopedQ (fun _ => true) false gendumpWitness = false ∧ wellScopedQ (fun _ => true) true gendumpWitness = true := by
+  decide
+
+open DW.GenDump in
+/-- non-vacuity: the text the model writes for the witness (what the library writes, see the correspondence) -/
+example : genCode (fun _ => true) gendumpWitness =
+    ("  result = []\n  if exclude is None:\n    _skip_0=_skip_1=False\n  else:\n    _skip_0='x' in exclude;_skip_1='extra' in exclude\n" ++
+     "  if skip_defaults:\n    _skip_0 = _skip_0 or o.x is None\n    _skip_1 = _skip_1 or o.extra is None\n" ++
+     "  if not _skip_0:\n    result.append(('x',asdict(o.x,dict_factory,hooks,config,cls_to_asdict)))\n" ++
+     "  if o.extra != _default_1 and not _skip_1:\n    for k, v in o.extra.items():\n" ++
+     "      result.append((k,asdict(v,dict_factory,hooks,config,cls_to_asdict)))\n  return dict_factory(result)").toList := by
+  decide +kernel
 
 end DW.Props.C15
